@@ -2,6 +2,7 @@ import ruamel.yaml as yaml
 import schema
 
 from io import StringIO
+from ruamel.yaml.representer import SafeRepresenter
 
 from ..exceptions import StatechartError
 from ..model import Statechart
@@ -9,6 +10,22 @@ from ..model import Statechart
 from .datadict import export_to_dict, import_from_dict
 
 __all__ = ['import_from_yaml', 'export_to_yaml']
+
+
+class _Representer(SafeRepresenter):
+    """
+    Strings that contain a NEL character (U+0085) are written by the default representer
+    as-is inside a quoted scalar, and the character is folded into a space when the document
+    is read again. Use the double-quoted style for them, so that the character is escaped.
+    """
+
+    def represent_str_with_nel(self, data):
+        if '\x85' in data:
+            return self.represent_scalar('tag:yaml.org,2002:str', data, style='"')
+        return self.represent_str(data)
+
+
+_Representer.add_representer(str, _Representer.represent_str_with_nel)
 
 
 class SCHEMA:
@@ -104,6 +121,7 @@ def export_to_yaml(statechart: Statechart, filepath: str = None) -> str:
     # Always use the block style: in flow style, plain scalars such as "? x" are emitted
     # unquoted and the resulting document cannot be parsed back
     yml.default_flow_style = False
+    yml.Representer = _Representer
     yml.dump(export_to_dict(statechart), output)
 
     if filepath:
